@@ -15,7 +15,7 @@ leg = Leg("c08_targets", "generated targets depth<=%d x 4 layouts x 1..2 items x
 
 
 def targets(depth):
-    atoms = ["a", "self.x", "obj.f.g", "d[0]", "d['k']", "d[i]", "f(1).y", "g(i, 2)[0]"]
+    atoms = ["a", "self.x", "obj.f.g", "d[0]", "d['k']", "d[i]", "f(1).y", "g(i, 2)[0]", "obj.m().y", "obj.m(1)[0]", "d.get('k').slot"]
     unsupported = ["d[i + 1]", "f(k=1).y", "d[1:2]"]
     out = [(t, True) for t in atoms] + [(t, False) for t in unsupported]
     if depth <= 0:
@@ -124,7 +124,15 @@ class Anything:
     def __hash__(s): return 0
 
 
+class CountsEq:
+    """a local whose __eq__ / __hash__ are observable: inspection must not call them (pure observation, C06)"""
+    calls = 0
+    def __eq__(s, o): CountsEq.calls += 1; return False
+    def __hash__(s): CountsEq.calls += 1; return 1
+
+
 DYN = {
+    "observable-eq-local": "def fn(V, A):\n    watched = A()\n    with V('k'):\n        yield\n",
     "equal-local-before": "def fn(V, A):\n    twin = V('k')\n    with V('k'):\n        yield\n",
     "equal-local-after": "def fn(V, A):\n    with V('k'):\n        twin = V('k')\n        yield\n",
     "permissive-eq-local": "def fn(V, A):\n    anything = A()\n    with V('k'):\n        yield\n",
@@ -138,8 +146,9 @@ DYN = {
 for name, src in DYN.items():
     ns = {}
     exec(compile(src, "<c08dyn>", "exec"), ns)
-    gen = ns["fn"](ValueCM, Anything)
+    gen = ns["fn"](ValueCM, CountsEq if name == "observable-eq-local" else Anything)
     next(gen)
+    CountsEq.calls = 0
     frame = gen.gi_frame
     leg.case(("dynamic", name), True)
     try:
@@ -148,6 +157,8 @@ for name, src in DYN.items():
         leg.violation(("dynamic", name), f"contexts_active_in_frame raised {e!r} on\n{src}")
         continue
     loc = frame.f_locals
+    if CountsEq.calls:
+        leg.violation(("dynamic", name), f"inspecting the frame called __eq__ / __hash__ of one of its locals {CountsEq.calls} time(s) on\n{src}")
     for c in ctxs:
         if c.varname is not None and loc.get(c.varname, leg) is not c.obj:
             leg.violation(("dynamic", name), f"varname {c.varname!r} names a local that is NOT the manager object (obj {c.obj!r}, local "
